@@ -77,8 +77,25 @@ Theorem C16_v1_other_steps_invisible : forall C cv cap ls l st st' s a c,
   V1.absv C s a st' = V1.absv C s a st.
 Proof. exact V1Proofs.v1_frame. Qed.
 
-(* (6) publishing never blocks and touches only the channel *)
+(* (5b) dropping the port: the forwarder sees Closed only after it has taken everything that
+   was buffered, so a subscriber that kept up has been forwarded EVERYTHING published after
+   its subscription by the time its forwarding task ends because of the drop (publisher
+   publishes a burst and drops the port without yielding: nothing of the burst is lost) *)
+Theorem C16_v1_drop_drains : forall C cv cap ls st st' s a c,
+  V1.run C cv cap (V1.init C) ls = Some st -> V1.conv_of C s ls = Some (a, c) ->
+  V1.never_behind C cv cap (V1.init C) s ls ->
+  V1.step C cv cap st (V1.LEnd s) = Some st' -> a_alive (V1.actors C st a) = true ->
+  let x := V1.absv C s a st' in
+  c_pc x = ADone /\ c_got x ++ c_mbox x = filter_map (cv c) (V1.pubs_after C s ls).
+Proof. exact V1Proofs.v1_drop_drains. Qed.
+
+Theorem C16_v1_end_needs_drained : forall C cv cap (st st' : V1.state C) s,
+  V1.step C cv cap st (V1.LEnd s) = Some st' -> V1.closed C st = true /\ V1.behind C st s = 0%nat.
+Proof. exact V1Proofs.end_needs_drained. Qed.
+
+(* (6) publishing never blocks (as long as a handle of the port exists) and touches only the channel *)
 Theorem C16_v1_publish_nonblocking : forall C cv cap (st : V1.state C) m,
+  V1.closed C st = false ->
   exists st', V1.step C cv cap st (V1.LPublish m) = Some st'
     /\ V1.tasks C st' = V1.tasks C st /\ V1.actors C st' = V1.actors C st
     /\ V1.order C st' = V1.order C st /\ V1.handles C st' = V1.handles C st
@@ -116,6 +133,7 @@ Theorem C16_v2_dead_subscriber_inert : forall C cv ad ls1 ls2 st1 st2 s a c,
 Proof. exact V2Proofs.v2_inert. Qed.
 
 Theorem C16_v2_publish_nonblocking : forall C cv ad (st : V2.state C) m,
+  V2.closed C st = false ->
   exists st', V2.step C cv ad st (V2.LPublish m) = Some st'
     /\ V2.queue C st' = V2.queue C st ++ [V2.Data m] /\ V2.batch C st' = V2.batch C st
     /\ V2.dp C st' = V2.dp C st /\ V2.subscribers C st' = V2.subscribers C st
@@ -231,6 +249,15 @@ Example ex_v2_replace :
   end.
 Proof. vm_compute. repeat split; reflexivity. Qed.
 
+(* publisher publishes [0;1;2] and drops the port without yielding, the forwarder having run
+   once before: all three arrive, in both ports, and the canonical run ends with LEnd *)
+Definition ex_drop := mkScen [] [OStart 0; OSub 0 ex_all; OSettle; OPub 0; OPub 1; OPub 2; ODrop; OSettle].
+Example ex_drop_drains :
+  X1.result 16 ex_drop = [[0; 1; 2]] /\ X2.result ex_drop = [[0; 1; 2]]
+  /\ In (V1.LEnd 0) (X1.trace 16 ex_drop)
+  /\ check_C16 false 16 ex_drop [[0]] = false.
+Proof. vm_compute. repeat split; try reflexivity. tauto. Qed.
+
 (* the hypotheses of C16_v2_exact's second part are met: subscription 0 of the example is
    still served, its actor alive, and everything owed has been received *)
 Example ex_v2_active :
@@ -246,6 +273,8 @@ Print Assumptions C16_v1_lag_bound.
 Print Assumptions C16_v1_after_lag.
 Print Assumptions C16_v1_dead_subscriber_inert.
 Print Assumptions C16_v1_other_steps_invisible.
+Print Assumptions C16_v1_drop_drains.
+Print Assumptions C16_v1_end_needs_drained.
 Print Assumptions C16_v1_publish_nonblocking.
 Print Assumptions C16_v2_publish_nonblocking.
 Print Assumptions C16_v2_refines_sub1.
